@@ -46,6 +46,7 @@ def run(ctx):
     ctx.rule("C06.null-marker", "FB only on None / NULL paths")
     ctx.rule("C06.row-boundary", "text-mode write_col encodes once into the connection; end_row ends one packet")
     ctx.rule("C06.text-grammar", "decoded format templates and argument sources match the MySQL text literal grammar")
+    ctx.rule("C06.int-text", "the text cell of every Rust integer type is the `{}` rendering of the value itself (the integer part of text-grammar, under its own id so that C15 can evaluate just that)")
     impls = prog.find(r" as value::encode::ToMysqlValue>::to_mysql_text$")
     ctx.floor("C06.one-cell", "to_mysql_text implementations", len(impls), 22)
     fixed_ints = {"u8", "i8", "u16", "i16", "u32", "i32", "u64", "i64", "usize", "isize", "f32", "f64"}
@@ -117,12 +118,17 @@ def run(ctx):
             if kinds == ["lenenc_str"]:
                 val = ems[0].value
                 sh = fmtargs.builder_shape(p, val) or fmtargs.format_shape(val)
-                if ty in ("[u8]",):
-                    ctx.ob("C06.text-grammar", T.is_param(T.peel(val), 1), "byte strings must be written whole (got %s)" % term_str(val)[:60], fn=b.path, construct="bytes-whole")
+                if ty in ("[u8]", "str", "std::string::String", "std::vec::Vec<u8>"):
+                    # byte-like values: the cell is the value's own bytes, all of them (as_bytes / as_slice / deref are views of the whole)
+                    whole = T.peel(val, extra_rx=r"(String::as_bytes|str>::as_bytes|impl str>::as_bytes|Vec::<T, A>::as_slice|Vec<T, A> as std::ops::Deref>::deref|String as std::ops::Deref>::deref|String::as_str)$")
+                    ctx.ob("C06.text-grammar", T.is_param(whole, 1), "byte strings must be written whole (got %s)" % term_str(val)[:60], fn=b.path, construct="bytes-whole")
                     continue
                 if sh is None:
                     ctx.ob("C06.text-grammar", False, "%s: the text of the cell is not built by a decodable format template (%s)" % (ty, term_str(val)[:80]), fn=b.path,
                            construct="no-template", where=b.where(p.blocks[-1]))
+                    if ty in fixed_ints:
+                        ctx.ob("C06.int-text", False, "%s: the text of the cell is not built by a decodable format template (%s)" % (ty, term_str(val)[:80]), fn=b.path,
+                               construct="no-template", where=b.where(p.blocks[-1]))
                     continue
                 pieces, args = sh
                 ss = shape_str(pieces)
@@ -169,6 +175,8 @@ def run(ctx):
                 else:
                     ok = True
                     why = "unclassified impl %s with template %r" % (ty, ss)
+                if ty in fixed_ints:
+                    ctx.ob("C06.int-text", ok, "%s text: %s" % (ty, why), fn=b.path, construct="template", where=b.where(p.blocks[-1]), key_extra={"shape": ss}, nontrivial=False)
                 ctx.ob("C06.text-grammar", ok, "%s text: %s" % (ty.split("::")[-1], why), fn=b.path, construct="template", where=b.where(p.blocks[-1]), key_extra={"shape": ss},
                        sample={"rule": "text-grammar", "impl": ty, "template": ss} if ty in ("u8", "chrono::NaiveDateTime", "std::time::Duration", "f64") else None)
         ctx.ob("C06.one-cell", npaths >= 1, "%s::to_mysql_text has no Ok path" % ty, fn=b.path, construct="has-ok-path", nontrivial=False)
